@@ -1776,6 +1776,9 @@ func resolveIndex(v, index reflect.Value, indexAsStr string) (reflect.Value, err
 	case reflect.Map:
 		// If it's a map, attempt to use the field name as a key.
 		indexVal := indexAsValue()
+		if !indexVal.IsValid() {
+			return reflect.Value{}, fmt.Errorf("can't use nil as key for map of type %s", v.Type())
+		}
 		if !indexVal.Type().ConvertibleTo(v.Type().Key()) {
 			return reflect.Value{}, fmt.Errorf("can't use %s (%s) as key for map of type %s", indexAsStr, indexVal.Type(), v.Type())
 		}
